@@ -543,6 +543,9 @@ def sim_wait(object_list, timeout=None):
     if timeout is not None and timeout <= 0:
         k.park("wait0")
         return ready()
+    a_ = k.cur_actor()
+    if a_ is not None:
+        a_.wait_objs = tuple(objs)      # what this actor sleeps on (watched invariant: every registered worker's sentinel is among them)
     v = k.park("wait", enabled=lambda: bool(ready()), can_timeout=timeout is not None, obj=tuple(objs))
     if v == "timeout":
         return []
